@@ -100,7 +100,7 @@ def _np_contract(dtype):
         else:
             # the code divides by exactly one finite sum, and that sum is the total power sum |a|^2
             named = prove.named_sums(ctx)
-            ctx.oblige(name % 'divides_by_one_sum', len(named) == 1, info={'sums': len(named)})
+            ctx.oblige(name % 'divides_by_one_sum', len(named) == 1, 'structure', info={'sums': len(named)})
             if len(named) != 1:
                 return None
             v, s = named[0]
